@@ -9,3 +9,14 @@ func VerifHoldAllSegStores() func() {
 	allSegStoresLock.Lock()
 	return allSegStoresLock.Unlock
 }
+
+// VerifPulseHandoverLocks: empty write sections of the unrotated-info lock and of the segstore table lock (see
+// metadata.VerifPulseUpdateLock): a writer arriving at this moment, without any change of the data.
+func VerifPulseHandoverLocks() {
+	UnrotatedInfoLock.Lock()
+	//lint:ignore SA2001 empty critical section on purpose
+	UnrotatedInfoLock.Unlock()
+	allSegStoresLock.Lock()
+	//lint:ignore SA2001 empty critical section on purpose
+	allSegStoresLock.Unlock()
+}
